@@ -309,6 +309,10 @@ impl Network for ChoiceNet {
                     // early.  Mutations / truncations / splices are therefore only made of single-packet
                     // datagrams; coalesced ones get the garbage variant.
                     let kind = if crate::wire::datagram_packet_kinds(&genuine).len() > 1 { 2 } else { kind };
+                    // splices need a single-packet previous datagram of the same direction (a prefix of a
+                    // coalesced one that keeps its first packet intact delivers that genuine packet)
+                    let splice_ok = prev_payload.as_ref().map_or(false, |p| crate::wire::datagram_packet_kinds(p).len() <= 1);
+                    let kind = if kind == 3 && !splice_ok { 2 } else { kind };
                     if sh.forge_enabled {
                         match kind {
                             0 => {
